@@ -88,6 +88,13 @@ def san_reports(err):
     return reps
 
 
+def _load_factor():
+    try:
+        return max(1.0, os.getloadavg()[0] / float(os.cpu_count() or 1))
+    except Exception:
+        return 1.0
+
+
 def run_harness(exe, scns, watchdog=20, per_scn_stderr=False, confirm_hangs=True):
     """scns: list of (id, lines).  -> dict id -> Scn (parsed), dict id -> notes, all sanitizer reports.
     With per_scn_stderr the harness is run one scenario per process chunk of size 1 for exact
@@ -95,6 +102,11 @@ def run_harness(exe, scns, watchdog=20, per_scn_stderr=False, confirm_hangs=True
     A scenario whose call did not return within the watchdog is run once more ALONE with a much
     longer watchdog before it counts as a hang: on a loaded machine (other checks, sanitizer
     slow-down) a slow call must not be taken for a hang."""
+    # the per-call watchdog is scaled by the machine load (1-minute load average per core): with
+    # sanitizer builds and busy-waiting worker threads an oversubscribed machine slows a call down
+    # by about that factor; a real hang is still a hang, it is only reported later
+    lf = _load_factor()
+    watchdog = int(watchdog * min(lf, 4.0))
     parsed, notes, sans = _run_harness_once(exe, scns, watchdog, per_scn_stderr)
     if confirm_hangs:
         hung = [s for s in scns if (s[0] in parsed and parsed[s[0]].hang) or (s[0] in notes and notes[s[0]][0] in (3, -9))]
